@@ -12,6 +12,7 @@ type verifAltCase struct {
 	alt    string // alternative text ("" = none)
 	canon  string // canonical text the alternative must be equivalent to
 	reject bool   // alt must be rejected
+	tl1Only bool  // compare the decoded values through TL1 only (see the f02 case)
 }
 
 func verifI32JSON(v int32) string   { return string(basictl.JSONWriteInt32(nil, v)) }
@@ -47,6 +48,9 @@ func verifRunAlt(newObj func() interface{}, c verifAltCase) {
 	w2, e2 := o2.(verifTL1).WriteTL1General(nil)
 	verifAssert(e1 == nil && e2 == nil && verifBytesEq(w1, w2), "same-value:"+c.name)
 	// both forms are written back identically (the writer's canonical form does not depend on the input spelling)
+	if c.tl1Only {
+		return
+	}
 	j1, _ := verifWriteJSON(o.(verifJSON))
 	j2, _ := verifWriteJSON(o2.(verifJSON))
 	verifAssert(verifBytesEq(j1, j2), "same-json-written-back:"+c.name)
